@@ -158,18 +158,26 @@ class Layouts:
         """A private crate function that is just one parser application on its input
         (`fn parse_ipv4_addr(i) -> IResult<..> { map(be_u32, Ipv4Addr::from)(i) }`) is replaced by that term."""
         b = self.prog.body(c.path)
-        if b is None or b.arg_count != 1 or b.nblocks > 12 or b.parent_impl or depth > 3:
+        if b is None or b.arg_count != 1 or b.nblocks > 40 or b.parent_impl or depth > 3:
             return None
         ret = peel(self.an.local(b, 0))
-        if ret[0] != "call":
-            return None
-        st = self.step_of_call(ret)
-        if st is None:
-            return None
-        term, cur = st
-        if peel(cur) != ("arg", 1):
-            return None
-        return term
+        if ret[0] == "call":
+            st = self.step_of_call(ret)
+            if st is not None:
+                term, cur = st
+                if peel(cur) == ("arg", 1):
+                    return term
+        # `let (rest, raw) = P(input)?; Ok((rest, f(raw)))` — one parser application plus a pure transform
+        L = self.parser_layout(c.path)
+        if L["ok"] and len(L["steps"]) == 1 and L.get("adt") is None:
+            step = L["steps"][0]
+            val = peel(L.get("value", ("opaque",)))
+            src = ("tfield", ("ok", step["call"]), 1)
+            if canon(val) == canon(src):
+                return step["term"]
+            if val[0] == "call" and val[2] is not None and len(val[3]) == 1 and canon(peel(val[3][0])) == canon(src):
+                return ("map", step["term"], ("constfn", val[2]))
+        return None
 
     def self_adt(self, c):
         b = self.prog.body(c.path)
